@@ -39,7 +39,16 @@
 //! container trees with a 2+ entry hash map the test is conservative (order unknown ahead of the run).
 //!
 //! Sensitivity probes (tools/mutrun, quick tier; patches under harness/crates/vf-tree/probes/):
-//! PROBES-PLACEHOLDER
+//! * probes/p1-vec-flag-after-jump+spill-display.diff, hunk 1 — `Vec<C>::map_elements` forgets the
+//!   `transformed` flag of earlier elements once an element returned Jump (DESIGN probe
+//!   "map_until_stop_and_collect dropping the transformed flag after a Jump"): c42a VIOLATION after
+//!   92 evaluations (transform_up on V(VV(V(V),V)): "reports transformed=false but the callbacks
+//!   reported a change"), c42b VIOLATION after 314 (Expr ScalarFunction args, map_children).
+//! * probes/p2-between-forgets-high+set-lowercases.diff, hunk 1 — `Expr::map_children` forgets the
+//!   `high` operand of BETWEEN (DESIGN probe "an Expr variant forgetting a child in map_children"):
+//!   c42b VIOLATION after 110 evaluations ("apply_children lists [1,2,3] but map_children maps [1,2]").
+//! (each mutrun rebuilt all of DataFusion, ~2.5 h on the shared machine; the second hunks of the two
+//! patches are the C43 probes, see c43a.rs / c43b.rs)
 use crate::c42ref::*;
 use datafusion::common::Result as DFResult;
 use datafusion::common::tree_node::{
